@@ -163,6 +163,13 @@ def dominance_pair(rnd, basic=False):
         rules = [hi, lo]
         rnd.shuffle(rules)
         return R.RuleFile(variables=list(PREAMBLE), rules=rules), level + ':' + str(k), w
+    if level == 'priority' and rnd.random() < .4:
+        # an explicit `priority: 0` (or a negative one) DEMOTES a rule below every rule that states none (50)
+        hi = R.Rule('HI', 'contains("%s")' % w[:2], 'Hi', 'HiSub')
+        lo = R.Rule('LO', 'contains("%s") and contains("%s") and regex("%s") and amount > -1e12 and month >= 0 and year >= 0' % (w, w, w), 'Lo', 'LoSub', priority=rnd.choice([0, 0, -5, 1]))
+        rules = [hi, lo]
+        rnd.shuffle(rules)
+        return R.RuleFile(variables=list(PREAMBLE), rules=rules), 'priority-demoted', w
     if level == 'priority':
         hi = R.Rule('HI', 'contains("%s")' % w[:2], 'Hi', 'HiSub', priority=60)
         lo = R.Rule('LO', 'contains("%s") and contains("%s") and regex("%s") and amount > -1e12 and month >= 0 and year >= 0' % (w, w, w), 'Lo', 'LoSub')
